@@ -282,6 +282,7 @@ func (r *Raft) stateLoop() {
 	for {
 		state = r.state
 		states[state].init()
+		verifPoint("loop.init", r)
 		for r.state == state {
 			select {
 			case <-r.close:
@@ -369,6 +370,7 @@ func (r *Raft) stateLoop() {
 				l.transfer.newTermTimer.active = false
 				l.onNewTermTimeout()
 			}
+			verifPoint("loop.event", r)
 		}
 		r.timer.stop()
 		states[state].release()
